@@ -20,6 +20,7 @@ import (
 )
 
 type udpCfg struct {
+	rbuf    int // ReadBufferCap (0 = default 64 KiB)
 	name    string
 	v6      bool
 	loops   int
@@ -69,7 +70,7 @@ func settle(fds []int) {
 	}
 }
 
-var udpHandle = []string{"read-all+write", "nothing+write", "next1+write", "peek1+write", "discard1+write", "read-all+sendto-other", "read-all+asyncwrite", "read-all+none"}
+var udpHandle = []string{"read-all+write", "nothing+write", "next1+write", "peek1+write", "discard1+write", "read-all+sendto-other", "read-all+asyncwrite", "read-all+none", "read-all+sendto-other-then-write"}
 
 func udpPort() int { return 20000 + (os.Getpid()%5000)*4 }
 
@@ -81,6 +82,9 @@ func udpWorld(c udpCfg) *world {
 	}
 	w.addr = fmt.Sprintf("udp://%s:%d", host, udpPort())
 	w.opts = []Option{WithNumEventLoop(c.loops)}
+	if c.rbuf > 0 {
+		w.opts = append(w.opts, WithReadBufferCap(c.rbuf))
+	}
 	peers := make([]*udpPeer, len(c.senders))
 	type seen struct {
 		sender, seq int
@@ -160,7 +164,7 @@ func udpWorld(c udpCfg) *world {
 				w.violate("udp:write", "Write(%d bytes) = %d, %v", len(reply), m, err)
 			}
 			sp.want++
-		case "sendto-other":
+		case "sendto-other", "sendto-other-then-write":
 			o := peers[(hit.sender+1)%len(peers)]
 			ua := &net.UDPAddr{}
 			switch a := o.addr.(type) {
@@ -173,6 +177,13 @@ func udpWorld(c udpCfg) *world {
 				w.violate("udp:sendto", "SendTo(%d bytes) = %d, %v", len(reply), m, err)
 			}
 			o.want++
+			if mode[indexByte(mode, '+')+1:] == "sendto-other-then-write" {
+				// a Write after a SendTo still answers the sender of the datagram
+				if m, err := cn.Write(reply); err != nil || m != len(reply) {
+					w.violate("udp:write", "Write(%d bytes) after SendTo = %d, %v", len(reply), m, err)
+				}
+				sp.want++
+			}
 		case "asyncwrite":
 			_ = cn.AsyncWrite(reply, nil)
 			sp.want++
@@ -302,6 +313,7 @@ func udpSchedConfigs() ([]sched.Config, func(string) *sched.Config) {
 			udpCfg{name: "udp/" + fam + "/2x[2|1023]", v6: v6, loops: 1, senders: [][]int{{2, 5}, {1023}}, single: -1},
 			udpCfg{name: "udp/" + fam + "/2loops", v6: v6, loops: 2, senders: [][]int{{3}, {4}}, single: -1},
 			udpCfg{name: "udp/" + fam + "/65507", v6: v6, loops: 1, senders: [][]int{{65507, 1}}, single: -1},
+			udpCfg{name: "udp/" + fam + "/readbuf2048", v6: v6, loops: 1, rbuf: 2048, senders: [][]int{{2047, 2048}, {1}}, single: -1},
 		)
 	}
 	var out []sched.Config
